@@ -34,8 +34,8 @@ Theorem C09_process :
 Proof. exact C09_process_gen. Qed.
 
 (* The same for runs that have terminated ([terminated]: nothing failed and can_terminate()
-   holds), over runs whose POk labels advance the bit position by at least 32 bits
-   ([opreach], see Properties_C10.C10_speculation_free_terminated for why parse() does). *)
+   holds), over runs whose POk labels lie at least 32 bits after the base of the block confirmed
+   before ([opreach], see Properties_C10.C10_speculation_free_terminated for why parse() does). *)
 Theorem C09_process_terminated :
   forall (O : oracle) n1 tin1 tout1 u1 n2 tin2 tout2 u2 st1 st2 L R,
     SeqDec O 0 0 L R ->
